@@ -450,6 +450,7 @@ type simAgg struct {
 	sigAll                     map[string]map[int]uint64 // build -> proc -> SigAll
 	runsByProc                 map[string]map[int]int
 	callsUsed                  int
+	usedCalls                  map[int32]bool
 	records                    []*proto.Record
 	crashes                    []crashInfo
 	mode                       string
@@ -540,6 +541,12 @@ func (a *simAgg) add(r *proto.ProcResult) {
 	}
 	if r.CallsUsed > a.callsUsed {
 		a.callsUsed = r.CallsUsed
+	}
+	if a.usedCalls == nil {
+		a.usedCalls = map[int32]bool{}
+	}
+	for _, id := range r.UsedCalls {
+		a.usedCalls[id] = true
 	}
 	if r.Record != nil {
 		a.records = append(a.records, r.Record)
